@@ -4,6 +4,7 @@ Import ListNotations.
 Require Adj XorConv AdjGen TableAdj GenProofs_RevMeas GenProofs_EaNoise.
 Require Import Stab Act Spec SpecProofs Gen_GateTable Gen_RevTrack GenProofs_RevTrack.
 Require GenProofs_TabMeas.
+Require Gen_AddError GenProofs_AddError.
 
 (* (1) Tie G: every unitary undo_* routine of the reverse tracker (translated from sparse_rev_frame_tracker.cc), applied per
        detector to (d in xs[q], d in zs[q]), is the unsigned action of the table's INVERSE gate; nothing refused, nothing
@@ -82,3 +83,15 @@ Print Assumptions C03_pair_measurement_segments_measure_the_product.
 Theorem C03_product_entry_points_use_the_decomposition : GenProofs_TabMeas.product_entries_ok = true.
 Proof. exact GenProofs_TabMeas.product_entry_points_ok. Qed.
 Print Assumptions C03_product_entry_points_use_the_decomposition.
+
+(* The probability folding of ErrorAnalyzer::add_error and add_error_in_sorted_jagged_tail, regenerated from source as functions
+   over Q, is p(1-q) + q(1-p) for all p, q (by ring), i.e. the merge of two independent equal-symptom mechanisms. *)
+Theorem C03_add_error_rule_is_merge : forall p q : Q, (Gen_AddError.rule_add_error p q == p * (1 - q) + q * (1 - p))%Q.
+Proof. exact GenProofs_AddError.add_error_rule_is_merge. Qed.
+Theorem C03_add_error_tail_rule_is_merge : forall p q : Q, (Gen_AddError.rule_add_error_in_sorted_jagged_tail p q == p * (1 - q) + q * (1 - p))%Q.
+Proof. exact GenProofs_AddError.add_error_tail_rule_is_merge. Qed.
+Theorem C03_folded_mechanisms_keep_the_distribution :
+  forall p q s d, XorConv.deq (XorConv.conv (p, s) (XorConv.conv (q, s) d)) (XorConv.conv (Gen_AddError.rule_add_error q p, s) d).
+Proof. exact GenProofs_AddError.folded_mechanisms_keep_the_distribution. Qed.
+Print Assumptions C03_add_error_rule_is_merge. Print Assumptions C03_add_error_tail_rule_is_merge.
+Print Assumptions C03_folded_mechanisms_keep_the_distribution.
